@@ -606,6 +606,10 @@ func TestVerifP2cErrorCodes(t *testing.T) {
 				}
 				complete(k.err)
 				after := conn.success
+				// whatever the completion's error code, it is a completion: picks minus completions
+				if fl := atomic.LoadInt64(&conn.inflight); fl != 0 {
+					c.Violation(fmt.Sprintf("code=%s gap=%v", k.name, gap), "in-flight after completion", fmt.Sprintf("5 picks, 5 completions (the last with %s): in-flight count is %d, want 0", k.name, fl))
+				}
 				c.Eval(fmt.Sprintf("code=%s gap=%v", k.name, gap), func() any {
 					return map[string]any{"code": k.name, "gap": gap.String(), "score_before": before, "score_after": after}
 				})
